@@ -811,4 +811,106 @@ theorem Tiles.single {n lo hi : Nat} {e : Expr} (hn : 0 < n) (h : Tiles n [(lo, 
   unfold ind at h0 h1
   split_ifs at h0 h1 <;> omega
 
+/-! ### the `__getitem__` loop -/
+
+theorem cover_spec {b : Nat} {ps : List Part} {p : Part} (h : cover b ps = some p) :
+    p ∈ ps ∧ p.1 ≤ b ∧ b < p.2.1 := by
+  induction ps with
+  | nil => simp [cover] at h
+  | cons q tl ih =>
+    obtain ⟨lo, hi, e⟩ := q
+    simp only [cover] at h
+    split at h
+    · rename_i hc
+      cases h
+      simp only [Bool.and_eq_true, decide_eq_true_eq] at hc
+      exact ⟨List.mem_cons_self, hc.1, hc.2⟩
+    · obtain ⟨h1, h2⟩ := ih h
+      exact ⟨List.mem_cons_of_mem _ h1, h2⟩
+
+theorem cover_isSome_of_cnt {b : Nat} {ps : List Part} (h : 1 ≤ cnt b ps) : (cover b ps).isSome := by
+  induction ps with
+  | nil => simp [cnt] at h
+  | cons q tl ih =>
+    obtain ⟨lo, hi, e⟩ := q
+    simp only [cover]
+    split
+    · rfl
+    · rename_i hc
+      rw [cnt_cons] at h
+      have : ind lo hi b = 0 := by
+        unfold ind
+        simp only [Bool.and_eq_true, decide_eq_true_eq] at hc
+        rw [if_neg hc]
+      have h' : cnt b tl + ind lo hi b ≥ 1 := h
+      exact ih (by omega)
+
+/-- size specification of a `setitem`-like operation on a comp under construction -/
+def SiSpec (si : Expr → Nat → Nat → Expr → R Expr) : Prop :=
+  ∀ n sf ps a b v r, Disj n ps → (∀ p ∈ ps, WF p.2.2) → WF v → si (.comp n sf ps) a b v = .ok r →
+    ∃ ps', r = .comp n sf ps' ∧ Disj n ps' ∧ (∀ p ∈ ps', WF p.2.2) ∧ a < b ∧ b ≤ n ∧
+      ∀ x, cnt x ps' = if a ≤ x ∧ x < b then 1 else cnt x ps
+
+theorem compGetLoop_spec (gi : Expr → Nat → Nat → R Expr) (si : Expr → Nat → Nat → Expr → R Expr)
+    (hgi : GiSpec gi) (hsi : SiSpec si) (size : Nat) (parts : List Part) (ht : Tiles size parts)
+    (hw : ∀ p ∈ parts, WF p.2.2) (stop l sta : Nat) (hstop : stop = sta + l) (hle : stop ≤ size) (sf : Bool) :
+    ∀ (k b : Nat) (rps : List Part) (res : Expr), l - b ≤ k → b ≤ l → Disj l rps → (∀ p ∈ rps, WF p.2.2) →
+      (∀ x, cnt x rps = if x < b then 1 else 0) →
+      compGetLoop gi si parts stop l k b (sta + b) (.comp l sf rps) = .ok res →
+      ∃ rps', res = .comp l sf rps' ∧ Tiles l rps' ∧ (∀ p ∈ rps', WF p.2.2) := by
+  intro k
+  induction k with
+  | zero =>
+    intro b rps res hk hb hd hwr hc h
+    simp only [compGetLoop] at h
+    cases h
+    have : b = l := by omega
+    subst this
+    exact ⟨rps, rfl, ⟨hd.1, fun x hx => by show cnt x rps = 1; rw [hc x]; simp [hx]⟩, hwr⟩
+  | succ k ih =>
+    intro b rps res hk hb hd hwr hc h
+    simp only [compGetLoop] at h
+    split at h
+    · cases h
+      have : b = l := by omega
+      subst this
+      exact ⟨rps, rfl, ⟨hd.1, fun x hx => by show cnt x rps = 1; rw [hc x]; simp [hx]⟩, hwr⟩
+    · rename_i hbl
+      have hbl' : b < l := by omega
+      have hcs : (cover (sta + b) parts).isSome := by
+        apply cover_isSome_of_cnt
+        have := ht.2 (sta + b) (by subst hstop; omega)
+        show 1 ≤ cnt (sta + b) parts
+        change cnt (sta + b) parts = 1 at this
+        omega
+      cases hcv : cover (sta + b) parts with
+      | none => rw [hcv] at hcs; cases hcs
+      | some p =>
+        obtain ⟨lo, hi, s⟩ := p
+        rw [hcv] at h
+        simp only at h
+        obtain ⟨hm, h1, h2⟩ := cover_spec hcv
+        simp only at h1 h2
+        have hs := ht.1 _ hm
+        simp only at hs
+        cases hg : gi s (sta + b - lo) (min hi stop - lo) with
+        | error e => rw [hg] at h; cases h
+        | ok piece =>
+          rw [hg] at h
+          simp only [bind, Except.bind] at h
+          have hp := hgi s _ _ piece (hw _ hm) (by omega) (by omega) hg
+          cases hsv : si (comp l sf rps) b (b + (min hi stop - lo - (sta + b - lo))) piece with
+          | error e => rw [hsv] at h; cases h
+          | ok res1 =>
+            rw [hsv] at h
+            simp only at h
+            obtain ⟨rps1, rfl, hd1, hw1, hab, hbn, hc1⟩ := hsi l sf rps _ _ piece res1 hd hwr hp.1 hsv
+            have e : sta + b + (min hi stop - lo - (sta + b - lo)) = sta + (b + (min hi stop - lo - (sta + b - lo))) := by
+              omega
+            rw [e] at h
+            refine ih _ rps1 res (by omega) hbn hd1 hw1 ?_ h
+            intro x
+            rw [hc1 x, hc x]
+            split_ifs <;> omega
+
 end Amoco.Expr
